@@ -152,4 +152,182 @@ theorem hset_all (k : Bytes) (ps : List (Bytes × Bytes)) (h : ps ≠ []) (hnd :
     rw [hset_fold k ps [(p.1, p.2)] 0 (by simpa using hnd)]
     simp
 
+/-! ### frame: other keys of the keyspace are untouched -/
+
+theorem any_false_of_get_none (ks : Keyspace) (k : Bytes) (h : get ks k = none) :
+    ks.any (fun e => e.1 == k) = false := by
+  unfold get at h
+  cases hf : ks.find? (fun e => e.1 == k) with
+  | some x => simp [hf] at h
+  | none =>
+    rw [List.find?_eq_none] at hf
+    rw [List.any_eq_false]
+    exact hf
+
+theorem get_frame (ks : Keyspace) (k : Bytes) (v : Val) (t : Nat) (h : get ks k = none) :
+    get (ks ++ [(k, v, t)]) k = some (v, t) := by
+  have ha := any_false_of_get_none ks k h
+  unfold get
+  rw [List.find?_append]
+  have : ks.find? (fun e => e.1 == k) = none := by
+    rw [List.find?_eq_none]; rw [List.any_eq_false] at ha; exact ha
+  simp [this]
+
+theorem map_id_of_mem {α} (l : List α) (f : α → α) (h : ∀ a ∈ l, f a = a) : l.map f = l := by
+  induction l with
+  | nil => rfl
+  | cons a l ih =>
+    rw [List.map_cons, h a (List.mem_cons_self ..), ih (fun x hx => h x (List.mem_cons_of_mem _ hx))]
+
+theorem put_frame (ks : Keyspace) (k : Bytes) (v v' : Val) (t t' : Nat) (h : get ks k = none) :
+    put (ks ++ [(k, v, t)]) k v' t' = ks ++ [(k, v', t')] := by
+  have ha := any_false_of_get_none ks k h
+  unfold put
+  have hany : (ks ++ [(k, v, t)]).any (fun e => e.1 == k) = true := by simp
+  rw [hany]
+  simp only [if_true, List.map_append, List.map_cons, List.map_nil, beq_self_eq_true]
+  congr 1
+  rw [List.any_eq_false] at ha
+  apply map_id_of_mem
+  intro e he
+  have := ha e he
+  simp at this
+  simp [this]
+
+theorem put_new (ks : Keyspace) (k : Bytes) (v : Val) (t : Nat) (h : get ks k = none) :
+    put ks k v t = ks ++ [(k, v, t)] := by
+  unfold put
+  rw [any_false_of_get_none ks k h]
+  simp
+
+/-- replaying commands that only touch key `k` into a keyspace that does not hold
+    `k` is replaying them into the empty keyspace, next to the untouched rest -/
+theorem rpush_fold_frame (ks : Keyspace) (k : Bytes) (es l : List Bytes) (t : Nat) (h : get ks k = none) :
+    applyCmds (ks ++ [(k, .list l, t)]) (es.map (fun e => cmdB b!"RPUSH" [k, e])) =
+      some (ks ++ [(k, .list (l ++ es), t)]) := by
+  induction es generalizing l with
+  | nil => simp [applyCmds]
+  | cons e es ih =>
+    simp only [List.map_cons, applyCmds, apply_rpush, doRpush, get_frame ks k _ _ h, put_frame ks k _ _ _ _ h]
+    rw [ih]
+    simp
+
+theorem sadd_fold_frame (ks : Keyspace) (k : Bytes) (es l : List Bytes) (t : Nat) (h : get ks k = none)
+    (hnd : (l ++ es).Nodup) :
+    applyCmds (ks ++ [(k, .set l, t)]) (es.map (fun e => cmdB b!"SADD" [k, e])) =
+      some (ks ++ [(k, .set (l ++ es), t)]) := by
+  induction es generalizing l with
+  | nil => simp [applyCmds]
+  | cons e es ih =>
+    have hnot : l.contains e = false := by
+      have := List.nodup_append.mp hnd
+      simp only [List.contains_eq_mem, decide_eq_false_iff_not]
+      intro hm
+      exact (this.2.2 e hm e (List.mem_cons_self ..)) rfl
+    simp only [List.map_cons, applyCmds, apply_sadd, doSadd, get_frame ks k _ _ h, put_frame ks k _ _ _ _ h, hnot]
+    have hnd' : ((l ++ [e]) ++ es).Nodup := by simpa using hnd
+    have := ih (l ++ [e]) hnd'
+    simp only [Bool.false_eq_true, if_false]
+    rw [this]
+    simp
+
+theorem zadd_fold_frame (ks : Keyspace) (k : Bytes) (ps l : List (Bytes × Arg)) (t : Nat) (h : get ks k = none)
+    (hnd : ((l ++ ps).map (·.1)).Nodup) :
+    applyCmds (ks ++ [(k, .zset l, t)]) (ps.map (fun p => ⟨b!"ZADD", [Arg.b k, p.2, Arg.b p.1]⟩)) =
+      some (ks ++ [(k, .zset (l ++ ps), t)]) := by
+  induction ps generalizing l with
+  | nil => simp [applyCmds]
+  | cons p ps ih =>
+    have hnew : ∀ e ∈ l, e.1 ≠ p.1 := by
+      intro e he heq
+      rw [List.map_append, List.nodup_append] at hnd
+      exact (hnd.2.2 e.1 (List.mem_map_of_mem he) p.1 (by simp)) heq
+    simp only [List.map_cons, applyCmds, apply_zadd, doZadd, get_frame ks k _ _ h, put_frame ks k _ _ _ _ h,
+      upsert_new l p.1 p.2 hnew]
+    have hnd' : (((l ++ [(p.1, p.2)]) ++ ps).map (·.1)).Nodup := by simpa using hnd
+    rw [ih (l ++ [(p.1, p.2)]) hnd']
+    simp
+
+theorem hset_fold_frame (ks : Keyspace) (k : Bytes) (ps l : List (Bytes × Bytes)) (t : Nat) (h : get ks k = none)
+    (hnd : ((l ++ ps).map (·.1)).Nodup) :
+    applyCmds (ks ++ [(k, .hash l, t)]) (ps.map (fun p => cmdB b!"HSET" [k, p.1, p.2])) =
+      some (ks ++ [(k, .hash (l ++ ps), t)]) := by
+  induction ps generalizing l with
+  | nil => simp [applyCmds]
+  | cons p ps ih =>
+    have hnew : ∀ e ∈ l, e.1 ≠ p.1 := by
+      intro e he heq
+      rw [List.map_append, List.nodup_append] at hnd
+      exact (hnd.2.2 e.1 (List.mem_map_of_mem he) p.1 (by simp)) heq
+    simp only [List.map_cons, applyCmds, apply_hset, doHset, get_frame ks k _ _ h, put_frame ks k _ _ _ _ h,
+      upsert_new l p.1 p.2 hnew]
+    have hnd' : (((l ++ [(p.1, p.2)]) ++ ps).map (·.1)).Nodup := by simpa using hnd
+    rw [ih (l ++ [(p.1, p.2)]) hnd']
+    simp
+
+/-- the whole expansion of a fresh key, next to an arbitrary rest of the keyspace -/
+theorem cmds_frame (ks : Keyspace) (k : Bytes) (o : ObjE) (hk : o.kind ≠ .other) (hne : o.nonempty)
+    (hd : o.members.Nodup) (h : get ks k = none) :
+    applyCmds ks (o.cmds k) = some (ks ++ [(k, o.value, 0)]) := by
+  unfold ObjE.cmds ObjE.value
+  unfold ObjE.nonempty at hne
+  unfold ObjE.members at hd
+  cases hkind : o.kind with
+  | other => exact absurd hkind hk
+  | str =>
+    cases o with
+    | str s => simp [applyCmds, apply_set, put_new ks k _ _ h]
+    | _ => simp [ObjE.kind] at hkind
+  | list =>
+    simp only [hkind] at hne ⊢
+    cases hes : o.elems with
+    | nil => exact absurd hes hne
+    | cons e es =>
+      simp only [List.map_cons, applyCmds, apply_rpush, doRpush, h, put_new ks k _ _ h]
+      rw [rpush_fold_frame ks k es [e] 0 h]; simp
+  | set =>
+    simp only [hkind] at hne hd ⊢
+    cases hes : o.elems with
+    | nil => exact absurd hes hne
+    | cons e es =>
+      rw [hes] at hd
+      simp only [List.map_cons, applyCmds, apply_sadd, doSadd, h, put_new ks k _ _ h]
+      rw [sadd_fold_frame ks k es [e] 0 h (by simpa using hd)]; simp
+  | zset =>
+    simp only [hkind] at hne hd ⊢
+    cases hes : o.scored with
+    | nil => exact absurd hes hne
+    | cons p ps =>
+      rw [hes] at hd
+      simp only [List.map_cons, applyCmds, apply_zadd, doZadd, h, put_new ks k _ _ h]
+      rw [zadd_fold_frame ks k ps [(p.1, p.2)] 0 h (by simpa using hd)]; simp
+  | hash =>
+    simp only [hkind] at hne hd ⊢
+    cases hes : o.pairs with
+    | nil => exact absurd hes hne
+    | cons p ps =>
+      rw [hes] at hd
+      simp only [List.map_cons, applyCmds, apply_hset, doHset, h, put_new ks k _ _ h]
+      rw [hset_fold_frame ks k ps [(p.1, p.2)] 0 h (by simpa using hd)]; simp
+
+theorem applyCmds_append (ks : Keyspace) (a b : List Cmd) :
+    applyCmds ks (a ++ b) = (applyCmds ks a).bind (fun ks' => applyCmds ks' b) := by
+  induction a generalizing ks with
+  | nil => simp [applyCmds]
+  | cons c a ih =>
+    simp only [List.cons_append, applyCmds]
+    cases applyXCmd ks c with
+    | none => simp
+    | some ks' => simp [ih]
+
+theorem lower_exists : lower b!"exists" = b!"exists" := by decide
+theorem lower_pexpire : lower b!"pexpire" = b!"pexpire" := by decide
+
+theorem apply_exists (ks : Keyspace) (k : Bytes) : applyXCmd ks (cmdB b!"exists" [k]) = some ks := by
+  simp [applyXCmd, applyCmd, cmdB, lower_exists, argBytes]
+
+theorem apply_pexpire (ks : Keyspace) (k t : Bytes) :
+    applyXCmd ks (cmdB b!"pexpire" [k, t]) = doPexpire ks k t := by
+  simp [applyXCmd, applyCmd, cmdB, lower_pexpire, argBytes]
+
 end GunYu.RedisSem
